@@ -19,6 +19,11 @@
                 Spec monitors (independent Python): K distinct indices into the front; epsilon rule; hypervolume: every removed
                 point has the least exact contribution; crowding distance by its definition (boundary -> infinity, sum of
                 normalised neighbour differences, first minimum).  The same models answer inside stream S (field mown=).
+  stream V    : SimulatedBinaryCrossover (draws injected through a replaying generator), PolynomialMutator, TournamentSelection
+                (std::mt19937 seeds; the draws are read from the harness in a first pass and listed in the case line), ElitistSelection
+                next to C14Var.v on OCaml floats: children / chosen index / flags compared exactly (hex floats).  Spec monitors:
+                children of parents inside the box are inside the box, untouched coordinates unchanged; the tournament winner is the
+                first drawn individual of least rank; elitist selection marks mu individuals, none worse than an unmarked one.
   stream F8   : HypervolumeIndicator WITHOUT reference point (separate stream, stable key
                 contribution:no-reference-k-too-large)."""
 import os, sys, re, math, itertools
@@ -443,6 +448,149 @@ def run_I(ck, lines, model, exe, tmpd, label="I"):
     return len(mon), len(dis), stats
 
 # ------------------------------------------------------------------------------------------------
+# stream V: variation and mating-selection operators
+def hx(x):
+    return float(x).hex()
+
+def unhex(t):
+    return float("nan") if t == "nan" else float.fromhex(t)
+
+def dyadic(rng, bits=53):
+    return rng.getrandbits(bits) / float(1 << bits)
+
+def gen_box(rng, n):
+    lo, hi, = [], []
+    for _ in range(n):
+        a = rng.choice([0.0, -1.0, 0.5, -3.25, 2.0]); w = rng.choice([1.0, 2.0, 0.5, 4.75, 0.0, 1e-8])
+        lo.append(a); hi.append(a + w)
+    return lo, hi
+
+def gen_point(rng, lo, hi, outside=False):
+    p = []
+    for a, b in zip(lo, hi):
+        q = rng.random()
+        if outside and q < 0.3: p.append(rng.choice([a - 0.5, b + 0.25]))
+        elif q < 0.15: p.append(a)
+        elif q < 0.3: p.append(b)
+        else: p.append(a + (b - a) * rng.choice([0.25, 0.5, 0.75, dyadic(rng, 20)]))
+    return p
+
+def gen_V(rng, big, count, exe, tmpd):
+    specs = []
+    for _ in range(count):
+        kind = rng.choice(["X", "X", "M", "M", "T", "L"])
+        if kind in ("X", "M"):
+            n = rng.randint(1, 4); lo, hi = gen_box(rng, n)
+            outside = rng.random() < 0.1
+            prob = rng.choice([1.0, 1.0, 0.5, 1.0 / n, 0.0]); eta = rng.choice([20.0, 25.0, 2.0, 0.5])
+            if kind == "X":
+                p1 = gen_point(rng, lo, hi, outside); p2 = gen_point(rng, lo, hi, outside)
+                q = rng.random()
+                if q < 0.15: p2 = list(p1)                                           # equal parents
+                elif q < 0.3: p2 = [x + 2.0 ** -25 for x in p1]                      # |y2 - y1| < 1e-7
+                us = [rng.choice([dyadic(rng), dyadic(rng), dyadic(rng, 3), 0.0, 0.5, 1.0 - 2.0 ** -53]) for _ in range(3 * n)]
+                specs.append(("X", "X %d %s %s %s" % (n, hx(prob), hx(eta), " ".join(hx(x) for x in lo + hi + p1 + p2)), us, None))
+            else:
+                p = gen_point(rng, lo, hi, outside); seed = rng.randint(1, 10 ** 6)
+                specs.append(("M", "M %d %s %s %d %s" % (n, hx(prob), hx(eta), seed, " ".join(hx(x) for x in lo + hi + p)), None, "R %d %d" % (seed, 2 * n)))
+        elif kind == "T":
+            n = rng.randint(3, 12); k = rng.choice([2, 2, 2, 1, 3, 5]); k = min(k, n - 1); seed = rng.randint(1, 10 ** 6)
+            ranks = [rng.randint(1, rng.choice([1, 2, 4])) for _ in range(n)]
+            specs.append(("T", "T %d %d %d %s" % (n, k, seed, " ".join(map(str, ranks))), None, "D %d %d %d" % (seed, n, k)))
+        else:
+            n = rng.randint(1, 14); mu = rng.randint(0, n); ranks = [rng.randint(1, rng.choice([1, 2, 5])) for _ in range(n)]
+            specs.append(("L", "L %d %d %s" % (n, mu, " ".join(map(str, ranks))), None, None))
+    pre = [sp[3] for sp in specs if sp[3]]
+    rc, po, err = run_lines(exe, pre, os.path.join(tmpd, "V_pre.txt"))
+    if rc != 0 or len(po) != len(pre): raise RuntimeError("variation harness failed in the draw pass: " + err[-500:])
+    it = iter(po); lines = []
+    for kind, head, us, prel in specs:
+        if prel:
+            o = next(it); vals = o.split("=", 1)[1].split(",")
+            lines.append(head + " | " + " ".join(vals))
+        elif us is not None: lines.append(head + " | " + " ".join(hx(u) for u in us))
+        else: lines.append(head)
+    return lines
+
+def parse_V(line):
+    left, _, right = line.partition("|"); t = left.split(); r = right.split()
+    return t, r
+
+def monitor_V(line, out):
+    t, r = parse_V(line); kind = t[0]; o = kv(out)
+    if out in ("EXC", "STDEXC", "BAD") or out.startswith("CRASH"): return ["operator raised: " + out]
+    if kind in ("X", "M"):
+        n = int(t[1]); v = [unhex(x) for x in t[(4 if kind == "X" else 5):]]
+        lo, hi = v[:n], v[n:2 * n]; parents = [v[2 * n:3 * n]] + ([v[3 * n:4 * n]] if kind == "X" else [])
+        kids = [[unhex(x) for x in o[k].split(",")] for k in (("c1", "c2") if kind == "X" else ("c",))]
+        if kind == "M" and o.get("drawsok") != "1": return ["harness: listed draws are not the generator's stream"]
+        inside = all(a <= x <= b for p in parents for x, a, b in zip(p, lo, hi))
+        name = "SimulatedBinaryCrossover" if kind == "X" else "PolynomialMutator"
+        for c in kids:
+            if len(c) != n: return ["%s: child has %d coordinates" % (name, len(c))]
+        if inside:
+            for ci, c in enumerate(kids):
+                for j, (x, a, b) in enumerate(zip(c, lo, hi)):
+                    if not (a <= x <= b):
+                        return ["%s: parents inside the box, child %d coordinate %d = %r outside [%r, %r]%s" % (name, ci + 1, j, x, a, b, " (degenerate coordinate lower = upper)" if a == b else "")]
+        if float(unhex(t[2])) == 0.0 and kids != parents: return ["%s with probability 0 changed the point" % name]
+        return []
+    if kind == "T":
+        n, k = int(t[1]), int(t[2]); ranks = list(map(int, t[4:])); drawn = [int(float(x)) for x in r]
+        if o.get("drawsok") != "1": return ["harness: listed indices are not the generator's stream"]
+        idx = int(o["idx"])
+        if idx not in drawn: return ["TournamentSelection returned individual %d, drawn were %s" % (idx, drawn)]
+        best = min(ranks[d] for d in drawn)
+        if ranks[idx] != best: return ["TournamentSelection returned individual %d of rank %d although individual of rank %d was drawn (%s)" % (idx, ranks[idx], best, drawn)]
+        if idx != next(d for d in drawn if ranks[d] == best): return ["TournamentSelection: winner %d is not the first drawn individual of least rank (%s, ranks %s)" % (idx, drawn, ranks)]
+        return []
+    if kind == "L":
+        n, mu = int(t[1]), int(t[2]); ranks = list(map(int, t[3:])); sel = [c == "1" for c in o["sel"]]
+        if len(sel) != n or sum(sel) != mu: return ["ElitistSelection marked %d of %d individuals, mu = %d" % (sum(sel), n, mu)]
+        if any(sel[i] and not sel[j] and ranks[i] > ranks[j] for i in range(n) for j in range(n)): return ["ElitistSelection keeps a worse-ranked individual and drops a better one (ranks %s, flags %s)" % (ranks, o["sel"])]
+        if o["out"] != "-":
+            out = ints(o["out"])
+            if len(out) != mu or len(set(out)) != mu or sorted(ranks[i] for i in out) != sorted(ranks)[:mu] or [ranks[i] for i in out] != sorted(ranks[i] for i in out):
+                return ["ElitistSelection (range overload) copied %s, ranks %s" % (out, ranks)]
+        return []
+    return ["unknown case kind"]
+
+def cmp_V(o, m):
+    a, b = kv(o), kv(m)
+    return all(a.get(k) == v for k, v in b.items())
+
+def run_V(ck, lines, model, exe, tmpd):
+    io = run_cases(exe, [[l] for l in lines], os.path.join(tmpd, "V_impl.txt"))
+    outs = [o[0] if rc == 0 and o else "CRASH rc=%s" % rc for (o, rc, e) in io]
+    rc, mo, err = run_lines(model, lines, os.path.join(tmpd, "V_model.txt"))
+    if rc != 0 or len(mo) != len(lines): raise RuntimeError("model driver failed: " + err[-1000:])
+    mon = []; dis = []; degen = []
+    for k, (l, o, m) in enumerate(zip(lines, outs, mo)):
+        msgs = monitor_V(l, o)
+        if msgs and "degenerate coordinate lower = upper" in msgs[0] and l.startswith("M "):
+            degen.append(l)                      # PolynomialMutator on lower = upper: 0/0 = NaN (reported to the lead; the float model reproduces it)
+            if not cmp_V(o, m): dis.append(k)
+        elif msgs: mon.append((k, msgs))
+        elif not cmp_V(o, m): dis.append(k)
+    seen = set()
+    for k, msgs in mon:
+        key = "variation:%s:%s" % (lines[k].split()[0], re.sub(r"[-\d.xa-fp+]+", "N", msgs[0])[:60])
+        if key in seen or len(seen) >= 3: continue
+        seen.add(key)
+        cf = ck.write_replay("V_case_%d.txt" % k, lines[k] + "\n")
+        ck.violation(key, {"case_file": cf, "case": lines[k], "implementation_output": outs[k], "model_output": mo[k], "monitor": msgs,
+                           "replay_cmd": "python3 tools/c14.py --replay " + cf}, "spec monitor fails on the implementation: " + msgs[0])
+    if dis and not mon:
+        k = dis[0]
+        cf = ck.write_replay("V_dis_%d.txt" % k, lines[k] + "\n")
+        ck.violation("correspondence-variation", {"case_file": cf, "case": lines[k], "implementation_output": outs[k], "model_output": mo[k],
+                                                  "broken": "correspondence C14Var (sbx / pm / tournament / elitist) vs the operator classes",
+                                                  "replay_cmd": "python3 tools/c14.py --replay " + cf},
+                     "correspondence variation-operator models vs the C++ operators no longer checks (%d cases differ, e.g. `%s`: implementation `%s`, model `%s`); the spec monitor passes on every explored input"
+                     % (len(dis), lines[k], outs[k], mo[k]), no_input=True)
+    return len(mon), len(dis), degen
+
+# ------------------------------------------------------------------------------------------------
 # stream P
 def gen_P(rng, count):
     out = []
@@ -610,6 +758,9 @@ def main():
     exe, err = cxx_build("c14_select", [os.path.join(ROOT, "harness", "c14_select.cpp")] + repo_src(*SRC))
     if exe is None:
         ck.oblige("selection harness builds against /repo", False, err); ck.finish()
+    varx, err = cxx_build("c14_var", [os.path.join(ROOT, "harness", "c14_var.cpp")] + repo_src("src/Core/Random.cpp"))
+    if varx is None:
+        ck.oblige("variation-operator harness builds against /repo", False, err); ck.finish()
     moo, err = cxx_build("c14_moo", [os.path.join(ROOT, "harness", "c14_moo.cpp")] + repo_src(*SRC_MOO))
     if moo is None:
         ck.oblige("optimizer harness builds against /repo", False, err); ck.finish()
@@ -626,6 +777,7 @@ def main():
     p_lines = [l for l in corpus if l.startswith("P ")]
     o_lines = [l for l in corpus if l.startswith("O ")]
     i_lines = [l for l in corpus if l.startswith("I ")]
+    v_lines = [l for l in corpus if l[:2] in ("X ", "M ", "T ", "L ")]
     if not ck.replay:
         s_lines += gen_S(ck.rng, big, 6000 if big else 900)
         p_lines += gen_P(ck.rng, 2000 if big else 300)
@@ -667,6 +819,16 @@ def main():
         ck.notes["crowding_constant_objective_cases"] = istats.get("cd_degenerate", 0)
         ck.notes["crowding_constant_objective_boundary_point_removed"] = len(istats.get("cd_degenerate_boundary_removed", []))
         ck.notes["crowding_constant_objective_sample"] = istats.get("cd_degenerate_boundary_removed", [])[:2]
+
+    # ---- stream V: variation / mating-selection operators next to their models
+    if not ck.replay: v_lines += gen_V(ck.rng, big, 6000 if big else 1200, varx, tmpd)
+    if v_lines:
+        vm, vd, vdegen = run_V(ck, v_lines, model, varx, tmpd)
+        ck.oblige("correspondence C14Var.sbx / pm / tournament / elitist = SimulatedBinaryCrossover / PolynomialMutator / TournamentSelection / ElitistSelection on %d calls" % len(v_lines),
+                  vm == 0 and vd == 0, "%d monitor failures, %d disagreements" % (vm, vd) if vm or vd else "")
+        ck.notes["variation_cases"] = len(v_lines)
+        ck.notes["polynomial_mutation_degenerate_box_nan_cases"] = len(vdegen)
+        ck.notes["polynomial_mutation_degenerate_box_nan_sample"] = vdegen[:1]
 
     # ---- stream P
     pm = pd = 0
@@ -742,7 +904,7 @@ def main():
         ck.oblige("re-initialised optimizer objects repeat the run of fresh objects on %d runs" % len(re_cases), rbad == 0)
         gens_total += sum(len(g) for (_, _, g, _) in [(0, 0, base[c][1], 0) for c in sel])
 
-    ck.cov["evaluations"] = len(s_lines) + len(f8_lines) + len(p_lines) + len(i_lines) + gens_total
+    ck.cov["evaluations"] = len(s_lines) + len(f8_lines) + len(p_lines) + len(i_lines) + len(v_lines) + gens_total
     ck.cov["distinct_nontrivial"] = len(set(l for l, o in zip(s_lines, outs) if "K=" in o and int(kv(o)["K"]) > 0)) + len(set(o_lines))
     ck.cov["rule"] = ("S: integer populations (n<=14, d in 2..4, coordinates 0..6; random / single front / chain / duplicates), every mu for a third of the populations, "
                       "4 indicators; non-trivial = the indicator had to name K>0 members of a split front.  P: integer points in/outside integer boxes.  "
